@@ -302,7 +302,8 @@ func runC01(c *mon.Ctx) {
 			continue
 		}
 		r := c.Rng("remux", i)
-		ops, n := remuxScenario(r, i%2 == 1)
+		ops, n, pe := remuxScenario(r, i%2 == 1)
+		c.Add("streams_announced_with_the_parsed_pmt_entry", int64(pe))
 		if n == 0 {
 			continue
 		}
